@@ -78,6 +78,9 @@ type Clause struct {
 	Region string // for known findings: residual region (filled by engine)
 }
 
+// rsetGroup: ghosts that describe the last reflect setter; assigning @rset assigns them too
+var rsetGroup = []string{"@lastsetk", "@lastseti", "@lastsetf", "@lastsetb", "@lastsets"}
+
 type FuncContract struct {
 	Key          string
 	Requires     []*Clause
@@ -279,6 +282,9 @@ func (fc *FuncContract) addClause(word, rest string, ln int) error {
 		for _, l := range strings.Split(rest, ",") {
 			if l = strings.TrimSpace(l); l != "" && l != "nothing" {
 				fc.Assigns = append(fc.Assigns, l)
+				if l == "@rset" {
+					fc.Assigns = append(fc.Assigns, rsetGroup...)
+				}
 			}
 		}
 	case "config":
@@ -379,6 +385,9 @@ func (fc *FuncContract) addClause(word, rest string, ln int) error {
 			for _, l := range strings.Split(rest3, ",") {
 				if l = strings.TrimSpace(l); l != "" {
 					lc.Assigns = append(lc.Assigns, l)
+					if l == "@rset" {
+						lc.Assigns = append(lc.Assigns, rsetGroup...)
+					}
 				}
 			}
 		default:
